@@ -444,3 +444,116 @@ Definition at_all_agree (e : res env) (cases : list (Q * res (Z * Z * Z))) : boo
   forallb (fun c => at_agrees (bind e (fun e => env_at e (fst c))) (snd c)) cases.
 Definition at_count_exact (e : res env) (cases : list (Q * res (Z * Z * Z))) : nat :=
   length (filter (fun c => match bind e (fun e => env_at e (fst c)) with Err Inexact => false | _ => true end) cases).
+
+(* ================================================================ multichannel envelopes
+   A level / time item may be a list of numbers, a curve item a list of names / numbers (one level
+   of nesting).  _envgen_format builds the same `contents` list, whose entries are now numbers or
+   lists, and returns  [tuple(i) for i in utl.flop(contents)]:  one array per channel, channel j
+   taking entry[j % len(entry)] of every list entry. *)
+Inductive mitem := MS (x : num) | ML (l : list num).
+Inductive mcurve := MCS (c : curve) | MCL (l : list curve).
+Record menv := mkmenv {
+  m_levels : list mitem; m_times : list mitem; m_curves : list mcurve;
+  m_release : option Z; m_loop : option Z; m_offset : option num }.
+
+(* Env.__init__ on item lists *)
+Definition menv_init (lv tm : list mitem) (cv : list mcurve) (rel lp : option Z) (off : option num) : menv :=
+  let lv' := match lv with [] => [MS (I 0); MS (I 1); MS (I 0)] | _ => lv end in
+  let tm' := match tm with [] => [MS (I 1); MS (I 1)] | _ => tm end in
+  {| m_levels := lv'; m_times := wrap_extend tm' (length lv' - 1); m_curves := cv;
+     m_release := rel; m_loop := lp; m_offset := off |}.
+
+(* _shape_number on a list item: every element in order (ValueError at the first unknown name) *)
+Fixpoint shape_numbers (l : list curve) : res (list num) :=
+  match l with
+  | [] => Ok []
+  | c :: r => do k <- shape_number c; do rest <- shape_numbers r; Ok (I k :: rest)
+  end.
+Definition mshape (c : mcurve) : res mitem :=
+  match c with
+  | MCS c => do k <- shape_number c; Ok (MS (I k))
+  | MCL l => do ks <- shape_numbers l; Ok (ML ks)
+  end.
+Definition mcurve_value (c : mcurve) : mitem :=
+  match c with MCS c => MS (curve_value c) | MCL l => ML (map curve_value l) end.
+
+Fixpoint mc_segments (lv tm : list mitem) (cv : list mcurve) (i : nat) {struct tm} : res (list mitem) :=
+  match tm with
+  | [] => Ok []
+  | t :: tm' =>
+    match lv with
+    | [] => Err IndexError
+    | l :: lv' =>
+      match cv with
+      | [] => Err ZeroDivisionError
+      | c0 :: _ =>
+        let c := nth (i mod length cv) cv c0 in
+        do sh <- mshape c;
+        do rest <- mc_segments lv' tm' cv (S i);
+        Ok (l :: t :: sh :: mcurve_value c :: rest)
+      end
+    end
+  end.
+Definition mc_contents (e : menv) : res (list mitem) :=
+  match m_levels e with
+  | [] => Err IndexError
+  | l0 :: lv' =>
+    do segs <- mc_segments lv' (m_times e) (m_curves e) 0;
+    Ok (l0 :: MS (I (Z.of_nat (length (m_times e)))) :: MS (node_or_absent (m_release e))
+           :: MS (node_or_absent (m_loop e)) :: segs)
+  end.
+
+(* utl.flop on a list of numbers / non-empty lists of numbers *)
+Definition item_width (x : mitem) : nat := match x with MS _ => 1%nat | ML l => length l end.
+Definition item_at (j : nat) (x : mitem) : num :=
+  match x with MS v => v | ML l => nth (j mod length l) l NErr end.
+Definition items_nonempty (cs : list mitem) : bool :=
+  forallb (fun x => match x with ML [] => false | _ => true end) cs.
+Definition width (cs : list mitem) : nat := fold_right (fun x w => Nat.max (item_width x) w) 1%nat cs.
+(* an empty list item makes flop put a list into the arrays: not representable here (OtherError) *)
+Definition flop (cs : list mitem) : res (list (list num)) :=
+  if items_nonempty cs then Ok (map (fun j => map (item_at j) cs) (seq 0 (width cs))) else Err OtherError.
+Definition mc_envgen_format (e : menv) : res (list (list num)) := do cs <- mc_contents e; flop cs.
+
+(* channel j of a multichannel envelope, as a single-channel envelope *)
+Definition proj_curve (j : nat) (c : mcurve) : curve :=
+  match c with MCS c => c | MCL l => nth (j mod length l) l (CName "") end.
+Definition project (e : menv) (j : nat) : env :=
+  {| levels := map (item_at j) (m_levels e); times := map (item_at j) (m_times e);
+     curves := map (proj_curve j) (m_curves e);
+     release := m_release e; loop := m_loop e; offset := m_offset e |}.
+
+(* Env._at: one value per channel *)
+Fixpoint sequence {A} (l : list (res A)) : res (list A) :=
+  match l with
+  | [] => Ok []
+  | Ok a :: r => do rest <- sequence r; Ok (a :: rest)
+  | Err e :: _ => Err e
+  end.
+Definition mc_env_at (e : menv) (t : Q) : res (list Q) :=
+  do chans <- mc_envgen_format e;
+  match m_offset e with
+  | None => Err TypeError
+  | Some o => sequence (map (fun data => env_at_data (seg_value xexact) data
+                                           (if Qlt_bool 0 (t - toQ o) then t - toQ o else 0)) chans)
+  end.
+
+Fixpoint cchans_eqb (a b : list (list (Z * Z * Z))) : bool :=
+  match a, b with
+  | [], [] => true
+  | x :: a', y :: b' => clist_eqb x y && cchans_eqb a' b'
+  | _, _ => false
+  end.
+Definition mc_fmt_agrees (r : res (list (list num))) (expected : res (list (list (Z * Z * Z)))) : bool :=
+  match r, expected with
+  | Ok l, Ok x => cchans_eqb (map (map canon) l) x
+  | Err a, Err b => eerr_eqb a b
+  | _, _ => false
+  end.
+Definition mc_at_agrees (r : res (list Q)) (expected : res (list (Z * Z * Z))) : bool :=
+  match r, expected with
+  | Err Inexact, _ => true
+  | Ok l, Ok x => clist_eqb (map (fun v => canon (F v)) l) x
+  | Err a, Err b => eerr_eqb a b
+  | _, _ => false
+  end.
